@@ -207,6 +207,8 @@ class Sweep:
 
     def __len__(self) -> int:
         """Return the number of unique combinations in the sweep."""
+        if not self.items:
+            return 0  # like `generate`, which yields nothing when there are no items
         if self.exclude is not None:
             return len(self.list())
         if self.dims is None or set(self.dims) == self.items.keys():
